@@ -346,6 +346,10 @@ func c20R4(c *Ctx, r *Report) {
 				}
 				n++
 				subj := exprStr(x.X)
+				if x.Low == nil && x.High != nil && loopBoundedIndex(info, x.High, subj, stack) {
+					r.OK(rule, fn.Name(), "slice "+exprStr(x), c.pos(x.Pos()), "the upper bound is the index of an enclosing `for i …; i < len("+subj+"); …` loop")
+					return true
+				}
 				need := sliceNeedsLen(info, x, subj)
 				if need <= 0 {
 					r.OK(rule, fn.Name(), "slice "+exprStr(x), c.pos(x.Pos()), "bounds trivially safe")
@@ -528,4 +532,43 @@ func minLenFromCond(info *types.Info, cond ast.Expr, subj string) int {
 		return len(suf)
 	}
 	return 0
+}
+
+// loopBoundedIndex: e is the index variable of an enclosing `for i := …; i < len(subj); i++` loop that is not
+// assigned in the loop body.
+func loopBoundedIndex(info *types.Info, e ast.Expr, subj string, stack []ast.Node) bool {
+	o := objOf(info, e)
+	if o == nil {
+		return false
+	}
+	for _, a := range stack {
+		fs, ok := a.(*ast.ForStmt)
+		if !ok || fs.Cond == nil {
+			continue
+		}
+		be, ok := ast.Unparen(fs.Cond).(*ast.BinaryExpr)
+		if !ok || be.Op != token.LSS || objOf(info, be.X) != o || exprStr(be.Y) != "len("+subj+")" {
+			continue
+		}
+		assigned := false
+		ast.Inspect(fs.Body, func(x ast.Node) bool {
+			switch s := x.(type) {
+			case *ast.AssignStmt:
+				for _, l := range s.Lhs {
+					if objOf(info, l) == o {
+						assigned = true
+					}
+				}
+			case *ast.IncDecStmt:
+				if objOf(info, s.X) == o {
+					assigned = true
+				}
+			}
+			return true
+		})
+		if !assigned {
+			return true
+		}
+	}
+	return false
 }
